@@ -156,6 +156,29 @@ pub fn vec_iter_any<T, F: FnMut(&T) -> bool>(v: &Vec<T>, f: F) -> (r: bool)
         !r ==> forall|i: int| 0 <= i < v@.len() ==> call_ensures(f, (&#[trigger] v@[i],), false),
 { v.iter().any(f) }
 
+// R21: `v.into_iter().map(f).collect()` on a Vec is routed through these boundary functions.  ASSUMED (std): `map` applies the
+// closure to the elements in order, `collect::<Vec<_>>()` keeps them in order, `collect::<Result<Vec<_>, E>>()` returns the first
+// `Err` in order (every earlier element having produced `Ok`).  Stated through the closure's own postcondition: sound for any closure.
+#[verifier::external_body]
+pub fn vec_into_iter_map_collect<T, U, F: FnMut(T) -> U>(v: Vec<T>, f: F) -> (r: Vec<U>)
+    ensures
+        r@.len() == v@.len(),
+        forall|i: int| 0 <= i < v@.len() ==> call_ensures(f, (v@[i],), #[trigger] r@[i]),
+{ v.into_iter().map(f).collect() }
+
+/// "the closure can return `Ok` on x" (named so that it can sit under a quantifier with a usable trigger)
+pub open spec fn fn_can_ok<T, U, E, F: FnMut(T) -> core::result::Result<U, E>>(f: F, x: T) -> bool { exists|u: U| call_ensures(f, (x,), Ok::<U, E>(u)) }
+
+#[verifier::external_body]
+pub fn vec_into_iter_try_map_collect<T, U, E, F: FnMut(T) -> core::result::Result<U, E>>(v: Vec<T>, f: F) -> (r: core::result::Result<Vec<U>, E>)
+    ensures
+        match r {
+            Ok(out) => out@.len() == v@.len() && forall|i: int| 0 <= i < v@.len() ==> call_ensures(f, (v@[i],), Ok::<U, E>(#[trigger] out@[i])),
+            Err(e) => exists|i: int| 0 <= i < v@.len() && call_ensures(f, (#[trigger] v@[i],), Err::<U, E>(e))
+                && forall|j: int| 0 <= j < i ==> fn_can_ok(f, #[trigger] v@[j]),
+        },
+{ v.into_iter().map(f).collect() }
+
 /// what `ToString::to_string` produces for a value (generic `impl ToString` parameters)
 #[verifier::external_trait_specification]
 #[verifier::external_trait_extension(ToStringSpec via ToStringSpecImpl)]
